@@ -294,10 +294,10 @@ def thread_jumps(body, adts, max_rounds=6, max_new=400):
                         known[X['t']['dst']['l']] = ('variant', 1)
                 if not known:
                     continue
-            elif X['t'].get('k') != 'goto':
+            elif X['t'].get('k') not in ('goto', 'drop') or not isinstance(X['t'].get('t'), int):
                 continue
             # last plain definitions in X
-            for st in (X['s'] if X['t'].get('k') == 'goto' else []):
+            for st in (X['s'] if X['t'].get('k') in ('goto', 'drop') else []):
                 if st.get('k') != '=':
                     continue
                 pl = st['pl']
